@@ -352,7 +352,12 @@ def units(tier):
         if not any(o.status == FAILED for o in r.obligations):
             U.must_fail_twin(r, "vacuity.must_fail_twin", lambda: unit_equal_rate(twin=True))
         return r
-    return [("C12.rk_kinetics.tableau", t), ("C12.rk_kinetics.equal_rate_tests", e), ("C12.Current_step", c)]
+    us = [("C12.rk_kinetics.tableau", t), ("C12.rk_kinetics.equal_rate_tests", e), ("C12.Current_step", c)]
+    from props import c12_time as TM
+    from props.common import wrap as _wrap
+    _wrap(us, "C12.run_reactions.cvode_restart_keeps_elapsed+remaining==requested", TM.unit_cvode_restart)
+    _wrap(us, "C12.step_drivers.clock_advances_by_the_step_integrated", TM.unit_step_clock)
+    return us
 
 
 def run(tier, seed, only, jobs):
